@@ -616,6 +616,7 @@ func TestC17(t *testing.T) {
 	ev.Sample(fixed[2])
 	ev.RapidChecks(ev.Pick(4000, 200000))
 	ev.RapidSeed(17)
+	var early []Case
 	rapid.Check(t, func(rt *rapid.T) {
 		c := gen(rt)
 		ev.Eval(1)
@@ -630,10 +631,21 @@ func TestC17(t *testing.T) {
 		if ev.SampleN() < 4 && c.DescKind == "v4" && len(c.Recs) > 1 {
 			ev.Sample(c)
 		}
+		if len(early) < 300 && len(c.Tags) < 70 {
+			early = append(early, c)
+		}
 		if k, w := check(c); k != "" {
 			ev.Fail(rt, "desc", k, w, c)
 		}
 	})
+	// the first 300 profiles once more after thousands of others (see C12)
+	for _, c := range early {
+		ev.Eval(1)
+		if k, w := check(c); k != "" {
+			ev.Violation("desc", k, "read again after many other profiles: "+w, c)
+			break
+		}
+	}
 	if ev.Violations() > 0 {
 		t.Fail()
 	}
